@@ -31,7 +31,12 @@ RULE = (
     "[(window end tick, window contents) for every window of the window_* run that completed, in completion order] plus "
     "the corresponding terminal.  group_join is judged on its documented duration semantics (a left window receives the "
     "right values whose duration overlaps it: those alive when it opens, in arrival order, and those arriving while it is "
-    "open).  Non-trivial: >=2 windows with >=1 element each.  Distinct = distinct case JSON."
+    "open).  Second subscription: in about a third of the generated cases (and for every count/skip with <=7 elements in "
+    "the enumeration) the SAME built observable is subscribed a second time, either after everything of the first "
+    "subscription has happened or overlapping it 1..4 ticks later; each subscription is judged by the same reference from "
+    "its own subscribe tick (window_when then uses a single closing timeline because the round-robin counter is per "
+    "observable); failures of the second subscription carry the signature suffix ':2nd-subscription'.  "
+    "Non-trivial: >=2 windows with >=1 element each (first subscription).  Distinct = distinct case JSON."
 )
 ASSUMPTIONS = [
     "same-instant order of a rule event and the source burst is unspecified: either is accepted, consistently per rule event for the whole burst",
@@ -73,7 +78,8 @@ def _int_src(tl):
     return [[t, k, val(p) if k == "N" else p] for t, k, p in tl]
 
 
-def _horizon(case):
+def _span(case):
+    """Ticks after a subscription within which everything of interest to it has happened."""
     h = 0
     for key in ("src", "b", "o", "left"):
         if key in case:
@@ -87,7 +93,23 @@ def _horizon(case):
         for c in case.get(key, ()):
             if isinstance(c["dt"], (int, float)):
                 extra = max(extra, c["dt"] + 2)
-    return h + case.get("sub", 0) + extra + 2
+    return h + extra + 2
+
+
+def _subs(case):
+    """Subscribe ticks: the first subscription and, with case["resub"], a second subscription of the SAME built
+    observable - after everything of the first has happened ("after") or overlapping it ("overlap", `at` ticks later)."""
+    sub = case.get("sub", 0)
+    r = case.get("resub")
+    if not r:
+        return [sub]
+    if r["mode"] == "after":
+        return [sub, sub + _span(case) + 1]
+    return [sub, sub + r["at"]]
+
+
+def _horizon(case):
+    return max(_subs(case)) + _span(case)
 
 
 def _closing_obs(lab, c):
@@ -131,26 +153,34 @@ def _operator(lab, case, variant, marks):
 def _execute(case, variant):
     clock = case.get("clock", "test")
     lab = Lab(clock, tick_s=1.0)
-    marks = {"term_seq": None}
+    marks = []  # seq of each source terminal, in order (subscription i terminates i-th: same timeline, later start)
     src = lab.source(case["src"], "src")
     source = src
     if case["form"] == "toggle":
 
         def mark(*_):
-            marks["term_seq"] = lab.next_seq()
+            marks.append(lab.next_seq())
 
         source = src.pipe(ops.do_action(on_error=mark, on_completed=mark))
     obs = source.pipe(_operator(lab, case, variant, marks))
-    p = lab.probe("p", inner=INNER)
-    sub = case.get("sub", 0)
-    if sub == 0:
-        p.subscribe(obs)
-    else:
-        lab.at(sub, lambda: p.subscribe(obs))
+    probes = _subscribe_all(lab, case, obs)
     lab.run(until=_horizon(case))
     if lab.escaped is not None:
         raise lab.escaped
-    return lab, p, marks
+    return lab, probes, marks
+
+
+def _subscribe_all(lab, case, obs):
+    """One probe per subscribe tick, all on the same observable object."""
+    probes = []
+    for i, s in enumerate(_subs(case)):
+        p = lab.probe("p" if i == 0 else f"q{i}", inner=INNER)
+        probes.append(p)
+        if s == 0:
+            p.subscribe(obs)
+        else:
+            lab.at(s, lambda p=p: p.subscribe(obs))
+    return probes
 
 
 def _observe(p):
@@ -276,10 +306,9 @@ def _nontrivial(obs_w):
 # count form: closed form
 
 
-def _check_count(case, obs_w, eff):
+def _check_count(case, obs_w, eff, sub):
     count = case["count"]
     skip = case["skip"] if case["skip"] is not None else count
-    sub = case.get("sub", 0)
     elems = [[t, p] for t, k, p in eff if k == "N"]
     term = next(([t, k, (["exc", p] if k == "E" else None)] for t, k, p in eff if k in ("C", "E")), None)
     n = len(elems)
@@ -317,9 +346,8 @@ def _check_count(case, obs_w, eff):
 # run
 
 
-def _sim_for(case, eff, mode=TOGGLE_SOURCE_COMPLETION_ENDS_WINDOWS):
+def _sim_for(case, eff, sub, mode=TOGGLE_SOURCE_COMPLETION_ENDS_WINDOWS):
     f = case["form"]
-    sub = case.get("sub", 0)
     H = _horizon(case)
     src = _canon_src(eff)
     if f == "time":
@@ -350,67 +378,107 @@ def _match(sim, got, cap=512):
     return None, first, ties, False
 
 
+_OPNAME = {"count": "window_with_count", "time": "window_with_time", "toc": "window_with_time_or_count", "boundary": "window", "when": "window_when", "toggle": "window_toggle"}
+SECOND = ":2nd-subscription"
+
+
+def _resub_classes(case, i):
+    r = case.get("resub")
+    if not r:
+        return []
+    return ["second-subscription:" + r["mode"]] if i == 1 else ["resubscribed-case"]
+
+
+def _judge_windows(case, i, sub, p, marks):
+    """Judge the i-th subscription's window run.  Returns (Result | None, obs_w, classes)."""
+    f = case["form"]
+    opname = _OPNAME[f]
+    sfx = SECOND if i == 1 else ""
+    eff = _effective(case["src"], sub)
+    obs_w = _observe(p)
+    got = _strip(obs_w)
+    ties, choice = 0, None
+    if f == "count":
+        clause, msg = _check_count(case, got, _canon_src(eff), sub)
+        if clause:
+            return FAIL(f"count:{clause}{sfx}|{opname}", f"{msg} subscription#{i} at {sub} case={case} observed={got}", classes=_classes(case, obs_w, 0, None) + _resub_classes(case, i)), obs_w, []
+    else:
+        try:
+            judged = got
+            term_seq = marks[i] if f == "toggle" and i < len(marks) else None
+            if term_seq is not None:
+                # only windows opened before the source's terminal are judged
+                judged = {"wins": [dict(w) for w, ow in zip(got["wins"], obs_w["wins"]) if ow["oseq"] < term_seq], "outer_end": got["outer_end"]}
+            choice, first, ties, capped = _match(_sim_for(case, eff, sub), judged)
+            if choice is None and capped:
+                return SKIP("too-many-ties"), obs_w, []
+            if choice is None:
+                cls = _classes(case, obs_w, ties, None) + _resub_classes(case, i)
+                if f == "toggle":
+                    alt, _, _, _ = _match(_sim_for(case, eff, sub, mode=False), got)
+                    if alt is not None:
+                        # the registered finding keeps its signature whichever subscription shows it
+                        return (
+                            FAIL(
+                                "toggle:open-window-outlives-source-completion|window_toggle",
+                                f"windows open when the source completes do not end with it. subscription#{i} at {sub} case={case} observed={got} expected(property)={first}",
+                                classes=cls,
+                            ),
+                            obs_w,
+                            [],
+                        )
+                return FAIL(f"{f}:{_clause(first, judged)}{sfx}|{opname}", f"subscription#{i} at {sub} case={case} observed={judged} expected(one of, first shown)={first}", classes=cls), obs_w, []
+        except refwin.SimSpin:
+            return SKIP("sim-spin"), obs_w, []
+    return None, obs_w, _classes(case, obs_w, ties, choice)
+
+
 def _run(case):
     f = case["form"]
     if f == "gjoin":
         return _run_gjoin(case)
-    sub = case.get("sub", 0)
-    eff = _effective(case["src"], sub)
-    lab, p, marks = _execute(case, "window")
+    subs = _subs(case)
+    lab, probes, marks = _execute(case, "window")
     if lab.inconclusive:
         return SKIP(lab.inconclusive)
     for q in lab.probes:
         ok, msg = q.grammar_ok()
         if not ok:
             return FAIL(f"{f}:grammar", f"{msg} case={case}")
-    obs_w = _observe(p)
-    got = _strip(obs_w)
-    ties, choice = 0, None
-    opname = {"count": "window_with_count", "time": "window_with_time", "toc": "window_with_time_or_count", "boundary": "window", "when": "window_when", "toggle": "window_toggle"}[f]
-    if f == "count":
-        clause, msg = _check_count(case, got, _canon_src(eff))
-        if clause:
-            return FAIL(f"count:{clause}|{opname}", f"{msg} case={case} observed={got}", classes=_classes(case, obs_w, 0, None))
-    else:
-        try:
-            judged = got
-            if f == "toggle" and marks["term_seq"] is not None:
-                # only windows opened before the source's terminal are judged
-                judged = {"wins": [dict(w) for w, ow in zip(got["wins"], obs_w["wins"]) if ow["oseq"] < marks["term_seq"]], "outer_end": got["outer_end"]}
-            choice, first, ties, capped = _match(_sim_for(case, eff), judged)
-            if choice is None and capped:
-                return SKIP("too-many-ties")
-            if choice is None:
-                cls = _classes(case, obs_w, ties, None)
-                if f == "toggle":
-                    alt, _, _, _ = _match(_sim_for(case, eff, mode=False), got)
-                    if alt is not None:
-                        return FAIL(
-                            "toggle:open-window-outlives-source-completion|window_toggle",
-                            f"windows open when the source completes do not end with it. case={case} observed={got} expected(property)={first}",
-                            classes=cls,
-                        )
-                return FAIL(f"{f}:{_clause(first, judged)}|{opname}", f"case={case} observed={judged} expected(one of, first shown)={first}", classes=cls)
-        except refwin.SimSpin:
-            return SKIP("sim-spin")
-    cls = _classes(case, obs_w, ties, choice)
-    # differential: buffers are the contents of the windows
-    lab2, p2, _ = _execute(case, "buffer")
+    opname = _OPNAME[f]
+    runs = []
+    cls = []
+    for i, (sub, p) in enumerate(zip(subs, probes)):
+        res, obs_w, c = _judge_windows(case, i, sub, p, marks)
+        if res is not None:
+            return res
+        runs.append(obs_w)
+        cls = cls + [x for x in c if x not in cls] + _resub_classes(case, i)
+    # differential: buffers are the contents of the windows (per subscription)
+    lab2, probes2, _ = _execute(case, "buffer")
     if lab2.inconclusive:
         return SKIP(lab2.inconclusive)
-    ok, msg = p2.grammar_ok()
-    if not ok:
-        return FAIL(f"{f}:buffer-grammar", f"{msg} case={case}", classes=cls)
     drop = f == "count"
-    exp_b = _expected_buffers(obs_w, drop)
-    got_b = _buffer_trace(p2, drop)
-    if got_b is None:
-        return FAIL(f"{f}:buffer-not-a-list|buffer", f"case={case} trace={p2.trace()}", classes=cls)
-    if got_b != exp_b:
-        return FAIL(f"{f}:buffer-vs-window|buffer_{opname[7:] or 'boundary'}", f"case={case} buffers={got_b} expected from windows={exp_b} windows={got}", classes=cls)
-    if any(b[1] == "N" and len(b[2]) >= 2 for b in got_b):
-        cls.append("buffer>=2-elements")
-    return OK(_nontrivial(obs_w), cls)
+    for i, (obs_w, p2) in enumerate(zip(runs, probes2)):
+        sfx = SECOND if i == 1 else ""
+        ok, msg = p2.grammar_ok()
+        if not ok:
+            return FAIL(f"{f}:buffer-grammar{sfx}", f"{msg} case={case}", classes=cls)
+        exp_b = _expected_buffers(obs_w, drop)
+        got_b = _buffer_trace(p2, drop)
+        if got_b is None:
+            return FAIL(f"{f}:buffer-not-a-list{sfx}|buffer", f"case={case} trace={p2.trace()}", classes=cls)
+        if got_b != exp_b:
+            return FAIL(
+                f"{f}:buffer-vs-window{sfx}|buffer_{opname[7:] or 'boundary'}",
+                f"subscription#{i} case={case} buffers={got_b} expected from windows={exp_b} windows={_strip(obs_w)}",
+                classes=cls,
+            )
+        if any(b[1] == "N" and len(b[2]) >= 2 for b in got_b) and "buffer>=2-elements" not in cls:
+            cls.append("buffer>=2-elements")
+    if len(runs) == 2 and _nontrivial(runs[1]):
+        cls.append("second-subscription-nontrivial")
+    return OK(_nontrivial(runs[0]), cls)
 
 
 # ------------------------------------------------------------------------------------------------
@@ -422,25 +490,20 @@ def _rdur_index(case, c):
 
 
 def _run_gjoin(case):
-    sub = case.get("sub", 0)
+    subs = _subs(case)
     lab = Lab()
     right = lab.source(case["src"], "src")
     left = lab.source(case["left"], "left")
     ld, rd = case["ldur"], case["rdur"]
     ldm = lab.fn("ldur", lambda v: _closing_obs(lab, ld[v % len(ld)]))
     rdm = lab.fn("rdur", lambda v: _closing_obs(lab, rd[_rdur_index(case, canon(v))]))
-    keys = []
 
     def pick(t):
-        keys.append(canon(t[0]))
+        t[1]._c18_left = canon(t[0])  # remembered on the window object (subscription-independent)
         return t[1]
 
     obs = left.pipe(ops.group_join(right, ldm, rdm), ops.map(pick))
-    p = lab.probe("p", inner=INNER)
-    if sub == 0:
-        p.subscribe(obs)
-    else:
-        lab.at(sub, lambda: p.subscribe(obs))
+    probes = _subscribe_all(lab, case, obs)
     lab.run(until=_horizon(case))
     if lab.escaped is not None:
         raise lab.escaped
@@ -450,32 +513,42 @@ def _run_gjoin(case):
         ok, msg = q.grammar_ok()
         if not ok:
             return FAIL("gjoin:grammar", f"{msg} case={case}")
-    obs_w = _observe(p)
-    got = _strip(obs_w)
-    eff_r = [[t, k, ([c, _rdur_index(case, c)] if k == "N" else pl)] for t, k, pl in _canon_src(_effective(case["src"], sub)) for c in [pl]]
-    eff_l = _int_src(_effective(case["left"], sub))
-    sim = refwin.sim_group_join(eff_l, eff_r, sub, ld, rd, _horizon(case))
-    first = None
-    ties = 0
-    matched = None
-    for choice, out in refwin.outcomes(sim, 512):
-        if choice is None:
-            return SKIP("too-many-ties")
-        if first is None:
-            first = out
-        ties = max(ties, out["ties"])
-        if _same(out, got) and out["keys"] == keys:
-            matched = (choice, out)
-            break
-    cls = _classes(case, obs_w, ties, matched[0] if matched else None)
-    if matched is None:
-        clause = "keys" if first["keys"] != keys and len(first["wins"]) == len(got["wins"]) else _clause(first, got)
-        return FAIL(f"gjoin:{clause}|group_join", f"case={case} observed={got} keys={keys} expected(one of, first shown)={first}", classes=cls)
-    if matched[1]["replayed"]:
-        cls.append("right-value-replayed-into-later-window")
+    by_id = {idx: o for idx, o in lab._obs_ids.values()}
+    cls = []
+    nts = []
+    for i, (sub, p) in enumerate(zip(subs, probes)):
+        sfx = SECOND if i == 1 else ""
+        keys = [getattr(by_id[ip.obs], "_c18_left", None) for ip in p.inners]
+        obs_w = _observe(p)
+        got = _strip(obs_w)
+        eff_r = [[t, k, ([pl, _rdur_index(case, pl)] if k == "N" else pl)] for t, k, pl in _canon_src(_effective(case["src"], sub))]
+        eff_l = _int_src(_effective(case["left"], sub))
+        sim = refwin.sim_group_join(eff_l, eff_r, sub, ld, rd, _horizon(case))
+        first = None
+        ties = 0
+        matched = None
+        for choice, out in refwin.outcomes(sim, 512):
+            if choice is None:
+                return SKIP("too-many-ties")
+            if first is None:
+                first = out
+            ties = max(ties, out["ties"])
+            if _same(out, got) and out["keys"] == keys:
+                matched = (choice, out)
+                break
+        c = _classes(case, obs_w, ties, matched[0] if matched else None)
+        cls = cls + [x for x in c if x not in cls] + _resub_classes(case, i)
+        if matched is None:
+            clause = "keys" if first["keys"] != keys and len(first["wins"]) == len(got["wins"]) else _clause(first, got)
+            return FAIL(f"gjoin:{clause}{sfx}|group_join", f"subscription#{i} at {sub} case={case} observed={got} keys={keys} expected(one of, first shown)={first}", classes=cls)
+        if matched[1]["replayed"] and "right-value-replayed-into-later-window" not in cls:
+            cls.append("right-value-replayed-into-later-window")
+        nts.append(_nontrivial(obs_w))
     if any(c["dt"] == "sync" for c in rd):
         cls.append("zero-right-duration")
-    return OK(_nontrivial(obs_w), cls)
+    if len(nts) == 2 and nts[1]:
+        cls.append("second-subscription-nontrivial")
+    return OK(nts[0], cls)
 
 
 # ------------------------------------------------------------------------------------------------
@@ -496,6 +569,10 @@ def _enum_count(tier):
                         elif term == "E":
                             tl.append([last + (1 - spacing), "E", "e1"])
                         yield {"form": "count", "count": count, "skip": skip, "sub": 0, "src": {"kind": "cold", "tl": tl}}
+                        if n <= 7 and spacing == 0:
+                            # the same windowed observable subscribed a second time: per-subscription counters
+                            r = {"mode": "after"} if (n + count) % 2 == 0 else {"mode": "overlap", "at": 1 + (n + (skip or 0)) % 3}
+                            yield {"form": "count", "count": count, "skip": skip, "sub": 0, "resub": r, "src": {"kind": "cold", "tl": tl}}
 
 
 _src = st.fixed_dictionaries(
@@ -510,8 +587,19 @@ _closings = st.lists(_closing, min_size=1, max_size=3).filter(lambda cs: any(c["
 _ints = ["n:0", "n:1", "n:2", "n:3"]
 
 
+_resub = st.sampled_from([None, None, None, None, {"mode": "after"}, {"mode": "after"}, {"mode": "overlap", "at": 1}, {"mode": "overlap", "at": 3}])
+
+
+def _fix_resub(case):
+    if case.get("resub") is None:
+        case.pop("resub", None)
+    elif case["form"] == "when":
+        case["closings"] = case["closings"][:1] if case["closings"][0]["dt"] != 0 else [{"dt": 1, "kind": case["closings"][0]["kind"]}]
+    return case
+
+
 def _gen_form(f):
-    base = {"form": st.just(f), "src": _src, "sub": _sub}
+    base = {"form": st.just(f), "src": _src, "sub": _sub, "resub": _resub}
     if f == "count":
         base.update(count=st.sampled_from([1, 2, 3, 4, 5, 6]), skip=st.sampled_from([None, 1, 2, 3, 4, 5, 6]))
     elif f == "time":
@@ -546,7 +634,7 @@ def _gen_form(f):
             ldur=st.lists(_closing, min_size=1, max_size=3),
             rdur=st.lists(st.fixed_dictionaries({"dt": st.sampled_from(["sync", 0.5, 1.5, 2.5, 4.5, None]), "kind": st.sampled_from(["N", "N", "C"])}), min_size=1, max_size=3),
         )
-    return st.fixed_dictionaries(base)
+    return st.fixed_dictionaries(base).map(_fix_resub)
 
 
 def checks(tier):
